@@ -263,7 +263,7 @@ def Ctx.eat (fixed : Bool) (k : Ctx) (pos : Nat) (c : Char) : Ctx :=
 def decVal (ds : List Char) : Nat := ds.foldl (fun a c => 10 * a + (c.toNat - 48)) 0
 def parseUsize (ds : List Char) : Option Nat :=
   let v := decVal ds
-  if v < 2 ^ 64 then some v else none
+  if v < 2 ^ 16 then some v else none
 
 /-- `Formats::Unknown`: `output.push_str(&fmt[fmt_pos..=cursor])` -/
 def echo (fmt : Str) (k : Ctx) : Res Str :=
